@@ -9,10 +9,12 @@ package main
 // real SSA on that tree.
 
 import (
+	"bytes"
 	"encoding/json"
 	"fmt"
 	"go/types"
 	"reflect"
+	"sort"
 	"strconv"
 	"strings"
 )
@@ -134,7 +136,7 @@ func (in *Interp) jsonTree(v Value, t types.Type) Iface {
 		return Iface{T: jt.mapT, V: out}
 	case *types.Struct:
 		in.nextMap++
-		out := &MapV{KT: jt.str, VT: jt.iface, ID: in.nextMap}
+		out := &MapV{KT: jt.str, VT: jt.iface, ID: in.nextMap, JSONObj: true}
 		in.jsonStructFields(v.(*StructV), u, out)
 		return Iface{T: jt.mapT, V: out}
 	case *types.Interface:
@@ -217,10 +219,25 @@ func init() {
 		"encoding/json.Marshal": func(in *Interp, _ *frame, a []Value) (Value, bool) {
 			obj := a[0].(Iface)
 			tree := in.jsonTree(obj, nil)
+			// a document without symbolic parts is its real text (code may search or edit it as a string)
+			if txt, ok := in.jsonText(tree); ok {
+				return Tuple{in.strToBytes(concStr(in.tf, txt)), Iface{}}, true
+			}
 			return Tuple{in.newBlob(tree), Iface{}}, true
 		},
 		"encoding/json.MarshalIndent": func(in *Interp, _ *frame, a []Value) (Value, bool) {
-			return Tuple{in.newBlob(in.jsonTree(a[0].(Iface), nil)), Iface{}}, true
+			tree := in.jsonTree(a[0].(Iface), nil)
+			if txt, ok := in.jsonText(tree); ok {
+				prefix, pok := a[1].(*Str)
+				indent, iok := a[2].(*Str)
+				if pok && iok && len(prefix.Alts) == 1 && prefix.Alts[0].Sym == nil && len(indent.Alts) == 1 && indent.Alts[0].Sym == nil {
+					var buf bytes.Buffer
+					if err := json.Indent(&buf, []byte(txt), prefix.Alts[0].S, indent.Alts[0].S); err == nil {
+						return Tuple{in.strToBytes(concStr(in.tf, buf.String())), Iface{}}, true
+					}
+				}
+			}
+			return Tuple{in.newBlob(tree), Iface{}}, true
 		},
 		"encoding/json.NewDecoder": func(in *Interp, _ *frame, a []Value) (Value, bool) {
 			r := a[0].(Iface)
@@ -352,6 +369,88 @@ func (in *Interp) simpleSprintf(format string, args SliceV) (*Str, bool) {
 		return nil, false
 	}
 	return out, true
+}
+
+// jsonText renders a tree without symbolic parts exactly as encoding/json.Marshal
+// writes it (struct members in field order, map members sorted, strings escaped
+// by the real encoder); ok=false when some leaf is symbolic.
+func (in *Interp) jsonText(tree Iface) (string, bool) {
+	jt := in.jt()
+	if tree.T == nil {
+		return "null", true
+	}
+	concOf := func(v Value) (string, bool) {
+		s, ok := v.(*Str)
+		if !ok || len(s.Alts) != 1 || s.Alts[0].Sym != nil || !s.Alts[0].G.IsTrue() {
+			return "", false
+		}
+		return s.Alts[0].S, true
+	}
+	switch {
+	case types.Identical(tree.T, jt.str):
+		c, ok := concOf(tree.V)
+		if !ok {
+			return "", false
+		}
+		b, err := json.Marshal(c)
+		if err != nil {
+			return "", false
+		}
+		return string(b), true
+	case types.Identical(tree.T, jt.boolean):
+		t, ok := tree.V.(*Term)
+		if !ok || !t.IsConst() {
+			return "", false
+		}
+		if t.IsTrue() {
+			return "true", true
+		}
+		return "false", true
+	case types.Identical(tree.T, jt.number):
+		return concOf(tree.V)
+	case types.Identical(tree.T, jt.slice):
+		sl := tree.V.(SliceV)
+		parts := make([]string, sl.Len)
+		for i := 0; i < sl.Len; i++ {
+			e, _ := sl.B.E[sl.Off+i].(Iface)
+			t, ok := in.jsonText(e)
+			if !ok {
+				return "", false
+			}
+			parts[i] = t
+		}
+		return "[" + strings.Join(parts, ",") + "]", true
+	}
+	m, ok := tree.V.(*MapV)
+	if !ok {
+		return "", false
+	}
+	type member struct{ raw, k, v string }
+	var ms []member
+	for _, e := range m.Entries {
+		if e.Deleted {
+			continue
+		}
+		k, ok := concOf(e.K)
+		if !ok {
+			return "", false
+		}
+		ev, _ := e.V.(Iface)
+		v, ok := in.jsonText(ev)
+		if !ok {
+			return "", false
+		}
+		kb, _ := json.Marshal(k)
+		ms = append(ms, member{k, string(kb), v})
+	}
+	if !m.JSONObj {
+		sort.SliceStable(ms, func(i, j int) bool { return ms[i].raw < ms[j].raw })
+	}
+	parts := make([]string, len(ms))
+	for i, x := range ms {
+		parts[i] = x.k + ":" + x.v
+	}
+	return "{" + strings.Join(parts, ",") + "}", true
 }
 
 // ---- blobs: JSON documents travel as a token that names the tree -------------
